@@ -15,7 +15,7 @@
         // C36: with per-client metrics enabled the connection is attached to the registry's entry for its address
         self.client matches Some(c) ==> (res.client matches Some(m) && has_entry(&c.addrs, addr, m)),
         self.client is None ==> res.client is None,
-//@ closure 1
+//@ closure map 1 optional
 |client: &RtrPerAddrMetrics| -> (r: Arc<RtrMetricsData>)
     requires writer_mutex(&client.addrs) == &client.write
     ensures has_entry(&client.addrs, addr, r)
@@ -27,7 +27,7 @@
         res matches Ok(s) ==> s.metrics.global == server_metrics.global && conn_incremented(&*s.metrics.global)
             && (server_metrics.client matches Some(c) ==>
                     (s.metrics.client matches Some(m) && has_entry(&c.addrs, addr.ip_spec(), m) && conn_incremented(&*m))),
-//@ closure 1
+//@ closure update 1 optional
 |metrics: &RtrMetricsData| ensures conn_incremented(metrics)
 //@ fn RtrStream::drop
 //@ spec
@@ -35,5 +35,5 @@
         // C36: closing the stream uncounts it on the same records
         conn_decremented(&*old(self).metrics.global),
         old(self).metrics.client matches Some(m) ==> conn_decremented(&*m),
-//@ closure 1
+//@ closure update 1 optional
 |metrics: &RtrMetricsData| ensures conn_decremented(metrics)
